@@ -11,6 +11,7 @@ package main
 import (
 	"encoding/json"
 	"fmt"
+	"os"
 	"sort"
 	"time"
 
@@ -66,8 +67,15 @@ func run(c *core.Ctx) {
 		return
 	}
 
-	nSeq := c.N(1800, 40000)
-	nConc := c.N(160, 2400)
+	nSeq := c.N(9000, 150000)
+	nConc := c.N(600, 8000)
+	// debugging aid for mutant experiments only: VERIF_C16_ONLY=seq|conc
+	only := os.Getenv("VERIF_C16_ONLY")
+	if only == "seq" {
+		nConc = 0
+	} else if only == "conc" {
+		nSeq = 0
+	}
 	chunkSeq, chunkConc := 30, 8
 	if c.Thorough() {
 		chunkSeq, chunkConc = 100, 20
@@ -92,10 +100,10 @@ func run(c *core.Ctx) {
 		}
 		jobs = append(jobs, j)
 	}
-	// interleave so that the (heavier) concurrent chunks do not all end up last
-	sort.SliceStable(jobs, func(a, b int) bool { return false })
+	// the (heavier) concurrent chunks first, so that they do not all end up last
+	sort.SliceStable(jobs, func(a, b int) bool { return jobs[a].clause == "conc" && jobs[b].clause != "conc" })
 
-	core.ParallelFor(len(jobs), 14, func(ji int) {
+	core.ParallelFor(len(jobs), 24, func(ji int) {
 		j := jobs[ji]
 		seeds := j.seeds
 		for len(seeds) > 0 {
@@ -158,6 +166,10 @@ func run(c *core.Ctx) {
 		"isolation_replays", "conc_exact_count_checks", "conc_dist_bucket_checks", "conc_size_reject_checks",
 	}
 	for _, n := range need {
+		isConc := len(n) > 5 && n[:5] == "conc_"
+		if (only == "seq" && isConc) || (only == "conc" && !isConc) {
+			continue
+		}
 		if c.Counter(n) == 0 && c.Violations() == 0 {
 			c.Fatal("expected behaviour class never observed: %s", n)
 		}
@@ -167,6 +179,9 @@ func run(c *core.Ctx) {
 func merge(c *core.Ctx, cr *caseResult) {
 	if cr.Inconclusive != "" {
 		c.Inconclusive(cr.Clause + "-" + cr.Inconclusive)
+		if cr.Inconclusive == "config-refused" || cr.Inconclusive == "pipeline" {
+			c.Fatal("harness problem: %s-%s for case seed %d", cr.Clause, cr.Inconclusive, cr.Seed)
+		}
 		return
 	}
 	c.Eval(1)
@@ -207,7 +222,7 @@ func replay(c *core.Ctx) {
 		} `json:"witness"`
 	}
 	var w wit
-	b, err := readFile(c.ReplayArg())
+	b, err := os.ReadFile(c.ReplayArg())
 	if err != nil || json.Unmarshal(b, &w) != nil {
 		c.Fatal("cannot read witness")
 		return
